@@ -52,11 +52,15 @@ func copyTree(t *testing.T, src, dst string) {
 	}
 }
 
+// identifiers of the reference shapes that mutation texts mention
+var refIdents = []string{"errCode", "lockErrToProtoBuffErr", "rpcErrorToError", "r.lockTimeoutSeconds"}
+
 // file may be prefixed with "all:" (replace every occurrence, default: the first) or "re:" (old is a regular expression)
 type edit struct{ file, old, new string }
 
 type mutant struct {
 	name     string
+	needs    []edit // (file, old): texts of the reference shape the baseline must contain for the case to apply
 	edits    []edit
 	harmless bool // generated files must be byte-identical to the baseline
 	check    func(base, got *Result) error
@@ -321,7 +325,7 @@ func mutants() []mutant {
 			check: srvDiff(nil)},
 
 		// ------------------------------------------------------------ server-side table written as a map literal
-		{name: "srv: table as a map literal + lookup (harmless)", harmless: true, edits: []edit{
+		{name: "srv: table as a map literal + lookup (harmless)", harmless: true, needs: []edit{{grpcGo, "\tswitch e {", ""}}, edits: []edit{
 			{"re:" + grpcGo, mapShapeRx, mapShape}},
 			check: func(base, got *Result) error {
 				if got.SrvShape != "map" {
@@ -329,28 +333,28 @@ func mutants() []mutant {
 				}
 				return srvDiff(nil)(base, got)
 			}},
-		{name: "srv: map literal, lookup without ok (zero value = Unknown) (harmless)", harmless: true, edits: []edit{
+		{name: "srv: map literal, lookup without ok (zero value = Unknown) (harmless)", harmless: true, needs: []edit{{grpcGo, "\tswitch e {", ""}}, edits: []edit{
 			{"re:" + grpcGo, mapShapeRx, strings.Replace(mapShape, "\terrCode, ok := errorCodes[e]\n\tif !ok {\n\t\terrCode = pb.ErrorCode_Unknown\n\t}\n", "\terrCode := errorCodes[e]\n", 1)}},
 			check: srvDiff(nil)},
-		{name: "srv: map literal, one value changed", edits: []edit{
+		{name: "srv: map literal, one value changed", needs: []edit{{grpcGo, "\tswitch e {", ""}}, edits: []edit{
 			{"re:" + grpcGo, mapShapeRx, strings.Replace(mapShape, "lock.ErrLockNotLocked:                  pb.ErrorCode_NotLocked,", "lock.ErrLockNotLocked:                  pb.ErrorCode_InvalidLockKey,", 1)}},
 			check: srvDiff(map[string]string{"ELockNotLocked": "InvalidLockKey"})},
-		{name: "srv: map literal, entry dropped", edits: []edit{
+		{name: "srv: map literal, entry dropped", needs: []edit{{grpcGo, "\tswitch e {", ""}}, edits: []edit{
 			{"re:" + grpcGo, mapShapeRx, strings.Replace(mapShape, "\tserver.ErrLockDoesNotExistOrInvalidKey: pb.ErrorCode_LockDoesNotExistOrInvalidKey,\n", "", 1)}},
 			check: srvDiff(map[string]string{"ESrvDoesNotExistOrInvalidKey": "Unknown"})},
-		{name: "srv: map literal, other default", edits: []edit{
+		{name: "srv: map literal, other default", needs: []edit{{grpcGo, "\tswitch e {", ""}}, edits: []edit{
 			{"re:" + grpcGo, mapShapeRx, strings.Replace(mapShape, "\t\terrCode = pb.ErrorCode_Unknown\n", "\t\terrCode = pb.ErrorCode_NotLocked\n", 1)}},
 			check: srvDiff(allDefault("NotLocked"))},
-		{name: "srv: map literal changed in init()", edits: []edit{
+		{name: "srv: map literal changed in init()", needs: []edit{{grpcGo, "\tswitch e {", ""}}, edits: []edit{
 			{"re:" + grpcGo, mapShapeRx, mapShape + "\nfunc init() {\n\tdelete(errorCodes, lock.ErrLockNotLocked)\n}\n"}},
 			check: srvUnrecognised},
-		{name: "srv: map literal with a repeated key", edits: []edit{
+		{name: "srv: map literal with a repeated key", needs: []edit{{grpcGo, "\tswitch e {", ""}}, edits: []edit{
 			{"re:" + grpcGo, mapShapeRx, strings.Replace(mapShape, "\tlock.ErrLockSizeMismatch:               pb.ErrorCode_LockSizeMismatch,\n", "\tlock.ErrLockSizeMismatch:               pb.ErrorCode_LockSizeMismatch,\n\tlock.ErrInvalidLockKey:                 pb.ErrorCode_NotLocked,\n", 1)}},
 			check: srvUnrecognised},
-		{name: "srv: map lookup on something else than the error", edits: []edit{
+		{name: "srv: map lookup on something else than the error", needs: []edit{{grpcGo, "\tswitch e {", ""}}, edits: []edit{
 			{"re:" + grpcGo, mapShapeRx, strings.Replace(mapShape, "errorCodes[e]", "errorCodes[errors.Unwrap(e)]", 1)}},
 			check: srvUnrecognised},
-		{name: "srv: map built by a function call", edits: []edit{
+		{name: "srv: map built by a function call", needs: []edit{{grpcGo, "\tswitch e {", ""}}, edits: []edit{
 			{"re:" + grpcGo, mapShapeRx, strings.Replace(strings.Replace(mapShape, "var errorCodes = map[error]pb.ErrorCode{", "var errorCodes = mk(map[error]pb.ErrorCode{", 1), "\tlock.ErrLockSizeMismatch:               pb.ErrorCode_LockSizeMismatch,\n}", "\tlock.ErrLockSizeMismatch:               pb.ErrorCode_LockSizeMismatch,\n})\n\nfunc mk(m map[error]pb.ErrorCode) map[error]pb.ErrorCode { return m }", 1)}},
 			check: srvUnrecognised},
 
@@ -472,16 +476,16 @@ func mutants() []mutant {
 			check: constsUnrecognised},
 		{name: "const: MinRenewSeconds conversion that does not fit", edits: []edit{{clientGo, "MinRenewSeconds = int32(10)", "MinRenewSeconds = int32(1 << 40)"}},
 			check: constsUnrecognised},
-		{name: "const: renew formula in a helper (harmless)", harmless: true, edits: []edit{
+		{name: "const: renew formula in a helper (harmless)", harmless: true, needs: []edit{{clientGo, "\tif r.lockTimeoutSeconds <= 30 {", ""}}, edits: []edit{
 			{"re:" + clientGo, renewStartRx, renewHelper}},
 			check: constIs("renew_formula_recognised", "true")},
-		{name: "const: renew helper with another threshold", edits: []edit{
+		{name: "const: renew helper with another threshold", needs: []edit{{clientGo, "\tif r.lockTimeoutSeconds <= 30 {", ""}}, edits: []edit{
 			{"re:" + clientGo, renewStartRx, strings.Replace(renewHelper, "lockTimeoutSeconds <= 30", "lockTimeoutSeconds <= 40", 1)}},
 			check: constIs("renew_threshold", "40")},
-		{name: "const: renew helper of another shape", edits: []edit{
+		{name: "const: renew helper of another shape", needs: []edit{{clientGo, "\tif r.lockTimeoutSeconds <= 30 {", ""}}, edits: []edit{
 			{"re:" + clientGo, renewStartRx, strings.Replace(renewHelper, "\treturn max(lockTimeoutSeconds-30, MinRenewSeconds)", "\treturn lockTimeoutSeconds / 2", 1)}},
 			check: constIs("renew_formula_recognised", "false")},
-		{name: "const: renew helper called twice", edits: []edit{
+		{name: "const: renew helper called twice", needs: []edit{{clientGo, "\tif r.lockTimeoutSeconds <= 30 {", ""}}, edits: []edit{
 			{"re:" + clientGo, renewStartRx, strings.Replace(renewHelper, "\tinterval := renewInterval(r.lockTimeoutSeconds)\n", "\tinterval := renewInterval(r.lockTimeoutSeconds)\n\tinterval += renewInterval(r.lockTimeoutSeconds)\n", 1)}},
 			check: constIs("renew_formula_recognised", "false")},
 		{name: "const: cookie name", edits: []edit{{"net/rest/rest.go", `sessionCookieName = "ldlm-session"`, `sessionCookieName = "sid"`}},
@@ -576,7 +580,15 @@ func TestMutants(t *testing.T) {
 		dir := filepath.Join(t.TempDir(), fmt.Sprintf("m%02d", i))
 		copyTree(t, baseDir, dir)
 		applied := true
+		for _, nd := range m.needs {
+			if b, err := os.ReadFile(filepath.Join(dir, nd.file)); err != nil || !strings.Contains(string(b), nd.old) {
+				applied = false
+			}
+		}
 		for _, e := range m.edits {
+			if !applied {
+				break
+			}
 			all, re := strings.HasPrefix(e.file, "all:"), strings.HasPrefix(e.file, "re:")
 			p := filepath.Join(dir, strings.TrimPrefix(strings.TrimPrefix(e.file, "all:"), "re:"))
 			b, err := os.ReadFile(p)
@@ -591,6 +603,16 @@ func TestMutants(t *testing.T) {
 			}
 			if err != nil || !strings.Contains(string(b), e.old) {
 				applied = false
+				break
+			}
+			// the inserted text names identifiers of the reference shape: on a tree that calls them differently (a
+			// harmless rename in the tree under test) the mutated copy would not be the mutation the case is about
+			for _, id := range refIdents {
+				if strings.Contains(e.new, id) && !strings.Contains(string(b), id) {
+					applied = false
+				}
+			}
+			if !applied {
 				break
 			}
 			n := 1
